@@ -224,15 +224,29 @@ def run_listed(mcv):
     res = {"mcv": mcv, "viol": [], "judged": 0}
     for draw in range(3):
         _run_listed_once(chk, build, ev, sp, mcv, draw, res)
+    # the thread states in which the model accepts events besides Running
+    need = sp["models"].get(ev["model"], {}).get("need")
+    states = {"active": ["cooling", "warming"], "any": ["cooling", "warming", "paused"]}.get(need, [])
+    if ev["model"] != "O":
+        for k, st in enumerate(states):
+            _run_listed_once(chk, build, ev, sp, mcv, 3 + k, res, state=st)
     return res
 
 
-def _run_listed_once(chk, build, ev, sp, mcv, draw, res):
+STATE_CTX = {"cooling": ([("OHc", b"", False)], []),
+             "warming": ([("OHp", b"", False), ("OHw", b"", False)], [("OHr", b"", False)]),
+             "paused": ([("OHp", b"", False)], [("OHr", b"", False)])}
+
+
+def _run_listed_once(chk, build, ev, sp, mcv, draw, res, state=None):
     rng = chk.rng(sum(ord(c) << (8 * k) for k, c in enumerate(mcv)) + 1000003 * draw, "ctx")
     ctx = context_for(ev, sp, rng)
     if ctx is None:
         return res
     pro, e, epi, vals = ctx
+    if state:
+        pro = STATE_CTX[state][0] + pro
+        epi = epi + STATE_CTX[state][1]
     wd = os.path.join(chk.scratch, "l-%d" % os.getpid())
     try:
         base_trace(wd, pro + [e] + epi)
@@ -241,8 +255,9 @@ def _run_listed_once(chk, build, ev, sp, mcv, draw, res):
         if r.sig or r.rc not in (0, 1):
             res["viol"].append(("listed-event-crash:" + mcv, "emulator crashed on listed event %s" % mcv, r.brief()))
         elif not emu.accepted(r):
-            res["viol"].append(("listed-event-rejected:" + mcv, "listed event %s rejected in a legal context: %s"
-                                % (mcv, emu.last_error(r)), r.brief()))
+            res["viol"].append(("listed-event-rejected:" + mcv + (":" + state if state else ""),
+                                "listed event %s rejected in a legal context%s: %s"
+                                % (mcv, " (thread %s)" % state if state else "", emu.last_error(r)), r.brief()))
         # decoding
         rd = emu.run_tool(build, "ovnidump", [wd])
         want = expected_description(ev, vals)
@@ -458,7 +473,8 @@ def main(argv):
                    % (code, plen), {"code": code, "payload_len": plen})
     cov = {"evaluations": judged + nprobe, "distinct_nontrivial": len(evs) + len(set(c for c, _ in work)),
            "rule": "(1) every event listed by the build's ovnievents run once in a legal context constructed from the "
-                   "frozen table (partner first for leave events, type/task created for task events, mark types declared); "
+                   "frozen table (partner first for leave events, type/task created for task events, mark types declared), "
+                   "also with the thread Cooling / Warming (/ Paused) for the models that accept events in those states; "
                    "(2) every unlisted three-character code over the 94 printable characters in each of the eight models "
                    "as a one-event probe (empty payload and the payload sizes of listed events of that category), accepted "
                    "only inside the carve-outs (OB?, OU?, legacy codes accepted with a warning); (3) ovnidump line of each "
